@@ -1,6 +1,7 @@
 P = dict(
     harness='c05_allocsound.cpp',
-    variants=['asan', 'asan-noguard'],
+    variants=['asan', 'asan-noguard', 'memcheck'],
+    memcheck_stride=dict(quick=40, thorough=40),
     level='fault_enumeration',
     technique='runtime monitoring: the real new/new[]/nothrow/malloc/calloc/realloc/strdup/strndup entry points against a private detector, with recording PlatformSpecificMalloc/Realloc/Free seams (request sizes, 64 MiB refusal, NULL injected at every call index in turn), recording TestMemoryAllocators, an id-pattern block model and ASan/UBSan, on builds with and without guard bytes',
     rule='cases: every size 0..4096 through all 12 entry points; 2^k+-3 (k<=63) and the top 64 sizes, one entry point per case; calloc (count, size) lattice around 2^64; strndup (length, limit) lattice; requests under cpputest_malloc_set_out_of_memory; '
